@@ -1007,7 +1007,14 @@ struct ParamHarness : vh::Harness {
       Printer after;
       Outcome o = obj->load(js, stale0, true, &after);
       if (valid) {
-        if (o.status != "ok") fail("none", "Load of the saved JSON form fails with " + o.status);
+        if (o.status != "ok") {
+          // stale errno: the saved form of a +inf float/double field is the literal "inf"
+          bool posinf = false;
+          for (size_t i = 0; i < S.size(); ++i)
+            if ((S[i].kind == kFloat || S[i].kind == kDouble) && std::isinf(pr.snap[i].x) && pr.snap[i].x > 0) posinf = true;
+          fail(stale0 && posinf ? "stale-errno" : "none", "Load of the saved JSON form fails with " + o.status +
+               (stale0 ? " [errno=ERANGE before Load]" : ""));
+        }
         else
           for (size_t i = 0; i < S.size(); ++i)
             if (!rv_equal(S[i].kind, after.snap[i], pr.snap[i]))
@@ -1190,7 +1197,7 @@ struct Gen {
       case kOptInt:
         v = pick(std::vector<std::string>{"None", "5", "-3", "5L", "5LL", "12345L", "None ", " None", "Nonex", "none", "Non",
                                           "NoneL", "L", "5 L", "0", "2147483647", "2147483648", "1000", "+4", "abc", "1.5",
-                                          "-0L", "None5", "Nonee", "1234", "-123"});
+                                          "-0L", "None5", "Nonee", "1234", "-123", "Nonx", "NonE", "Nona "});
         break;
       case kOptBool:
         v = pick(std::vector<std::string>{"None", "true", "false", "1", "0", "none", "NONE", "TRUE", "False", "yes", "2",
@@ -1272,7 +1279,11 @@ int main(int argc, char **argv) {
   R.h = &H;
   H.extra = &R.extra;
   if (R.run_replay()) { R.finish(); return 0; }
-  vh::Rng rng(R.seed);
+  // vh::Rng(seed) puts seeds n and n+1 on the same splitmix orbit one step apart (the streams merge after a few
+  // variable-length draws), so the seed is scrambled first
+  uint64_t sd = R.seed + 0x632BE59BD9B4E019ULL;
+  sd ^= sd >> 33; sd *= 0xff51afd7ed558ccdULL; sd ^= sd >> 33; sd *= 0xc4ceb9fe1a85ec53ULL; sd ^= sd >> 33;
+  vh::Rng rng(sd);
   const std::vector<Decl> SA = decl_A(), SB = decl_B();
   const std::string pols[3] = {"allowhidden", "allmatch", "allowunknown"};
 
